@@ -341,6 +341,14 @@ pub fn run(ctx: &mut Ctx) -> (&'static str, String, bool) {
             check_string(txt, &mut p, Some(&mut near));
             ctx.merge(p);
         }
+        // revisions next to every width a packed or narrowed representation might give them
+        for rev in ["254", "255", "256", "65535", "65536", "16777214", "16777215", "16777216", "16777217", "2147483647", "2147483648", "4294967295", "4294967296", "4294967297", "9007199254740992", "9007199254740993", "9223372036854775807", "9223372036854775808", "18446744073709551614", "18446744073709551615"] {
+            for head in ["0.7F", "0.7G", "0.6F"] {
+                let mut p = Part::new();
+                check_string(&format!("{head}{rev}"), &mut p, Some(&mut near));
+                ctx.merge(p);
+            }
+        }
         ctx.extra("near_equal_numbers_in_pool", json!(near.len()));
         pool.extend(near);
     }
